@@ -21,10 +21,11 @@ reported as labels only (`dirty:<item>:after:<stage>`); it never decides a verdi
 reset at the *start* of a case (cv.gen.c11_exec.sanitize) so that a case does not inherit
 the wreckage of the previous case run by the same worker.
 
-Signature of a finding = (effect, class of the failure, *minimal cause*): the cause is found by
-re-running sub-histories in fresh interpreters (first every single preceding compile, then a
-greedy reduction of the prefix) - so `after` names the kind(s) of preceding compile(s) that
-alone reproduce the effect in a fresh interpreter.
+Signature of a finding = (effect, class of the failure, minimal cause): the cause is found by re-running
+sub-histories in fresh interpreters (first every single preceding compile, then removal of whole kinds of
+preceding compiles): `after` = the kinds (pool stages) of rejected compiles that are needed to reproduce the
+effect in a fresh interpreter, `with` = whether earlier accepted compiles (of the victim itself / of other
+valid designs) are needed as well.
 """
 from __future__ import annotations
 
@@ -109,6 +110,9 @@ def plan(tier):
     for i in range(n_hs):
         shards.append({"kind": "enum", "name": f"hashseed{i}", "space": "hashseed", "part": i, "parts": n_hs,
                        "tier": tier})
+    only = os.environ.get("C11_ONLY")  # debugging aid: regular expression selecting shards by name
+    if only:
+        shards = [s for s in shards if re.search(only, s["name"])]
     return shards
 
 
@@ -117,6 +121,13 @@ def _dspec(name, vi):
 
 
 def enumerate(shard):  # noqa: A001 - name fixed by the module contract
+    for case in _enumerate_space(shard):
+        if shard["space"] != "hashseed":
+            case["space"] = shard["space"]
+        yield case
+
+
+def _enumerate_space(shard):
     tier = shard["tier"]
     part, parts = shard["part"], shard["parts"]
     space = shard["space"]
@@ -328,7 +339,15 @@ def _verdict(gold, res):
 
 # =============================================================================== cause reduction
 def _cause(case, sources, k, verdict, results, out):
-    """Kinds of preceding compiles that alone reproduce `verdict` for op k in a fresh interpreter."""
+    """Minimal cause of `verdict` at op k, established by re-running sub-histories in fresh interpreters.
+
+    -> (after, with_, confirmed)
+       after : "+"-joined sorted kinds of *rejected* compiles that are needed ("no-reject" if none)
+       with_ : "" | "same-design" | "valid" | "same-design+valid": accepted compiles that are needed as well
+               (same-design = the victim design itself was compiled before / is compiled twice by op "a")
+    The reduction removes whole kinds of preceding compiles (all ops of one reject stage, all compiles of
+    other valid designs, all earlier compiles of the victim), so its cost is bounded by the number of kinds.
+    """
     ops = case["ops"]
     victim = ops[k]
     vkey = (victim[1], victim[2])
@@ -346,54 +365,49 @@ def _cause(case, sources, k, verdict, results, out):
         return _verdict(vgold, res[-1]) == verdict
 
     def describe(prefix):
-        kinds = []
-        for o in prefix:
-            kd = kind(o)
-            if kd not in kinds:
-                kinds.append(kd)
-        return "+".join(kinds) if kinds else "nothing"
+        kinds = {kind(o) for o in prefix}
+        rej = sorted(x for x in kinds if x.startswith("reject:"))
+        acc = [x for x in ("same-design", "valid") if x in kinds]
+        if victim[0] == "a" and "same-design" not in acc:
+            acc.insert(0, "same-design")  # op "a" compiles the victim's class object twice
+        return "+".join(rej) if rej else "no-reject", "+".join(acc)
 
     prefix = [list(o) for o in ops[:k]]
+    if not prefix:
+        return (*describe([]), True)
+    kinds_in_order = []
+    for o in prefix:
+        if kind(o) not in kinds_in_order:
+            kinds_in_order.append(kind(o))
+    if len(kinds_in_order) == 1 and len(prefix) == 1 and victim[0] != "a":
+        return (*describe(prefix), True)  # the case itself is the minimal history
+    if victim[0] == "a" and reproduces([]):
+        return (*describe([]), True)
+    # shortcut: one single preceding compile; those that dirtied monitored state first, most recent first
     distinct = []
     for o in prefix:
         if (o[1], o[2]) not in [(d[1], d[2]) for d in distinct]:
             distinct.append(o)
-    budget = 10
-    if victim[0] == "a":
-        # in a fresh interpreter "a" compiles the same class object twice: the rest of the history may be irrelevant
-        if not prefix:
-            return "same-design", True
-        budget -= 1
-        if reproduces([]):
-            return "same-design", True
-    if len(distinct) == 1 and len(prefix) == 1:
-        return describe(prefix), True  # the case itself is the minimal history
-    # single preceding compiles: those that dirtied monitored state first, most recent first
-    dirtied = {}
-    for j, o in _enumerate(prefix):
-        if results[j].get("dirtied"):
-            dirtied[(o[1], o[2])] = j
+    dirtied = {(o[1], o[2]) for j, o in _enumerate(prefix) if results[j].get("dirtied")}
     recent_first = distinct[::-1]
-    cands = ([o for o in recent_first if (o[1], o[2]) in dirtied]
-             + [o for o in recent_first if (o[1], o[2]) not in dirtied])
-    for o in cands[:4]:
-        budget -= 1
+    cands = [o for o in recent_first if (o[1], o[2]) in dirtied] + [o for o in recent_first if (o[1], o[2]) not in dirtied]
+    for o in cands[:3]:
         single = ["c" if (o[1], o[2]) != vkey else o[0], o[1], o[2]]
         if reproduces([single]):
-            return describe([single]), True
-    # greedy reduction of the whole prefix
+            return (*describe([single]), True)
     if not reproduces(prefix):
-        return "not-reproduced-in-fresh-interpreter", False
+        return "not-reproduced-in-fresh-interpreter", "", False
+    # remove whole kinds: other valid designs first, then rejects that did not dirty anything, then the rest
     cur = prefix
-    i = 0
-    while i < len(cur) and budget > 0:
-        trial = cur[:i] + cur[i + 1:]
-        budget -= 1
-        if trial and reproduces(trial):
+    dirty_kinds = {kind(o) for j, o in _enumerate(prefix) if results[j].get("dirtied")}
+    order = sorted(kinds_in_order, key=lambda kd: (kd != "valid", kd in dirty_kinds, kd == "same-design"))
+    for kd in order:
+        trial = [o for o in cur if kind(o) != kd]
+        if len(trial) == len(cur):
+            continue
+        if reproduces(trial):
             cur = trial
-        else:
-            i += 1
-    return describe(cur), True
+    return (*describe(cur), True)
 
 
 # =============================================================================== check
@@ -415,6 +429,9 @@ def check(case):
         out.labels.append(f"sanitized_at_case_start:{n}")
     results = X.run_history(sources, ops, monitor=True)
 
+    if case.get("space"):
+        last = ops[-1]
+        out.exhaustive_cell = f"{case['space']}:{case['designs'][last[1]]['d']}.{last[2]}"
     seen_reject = False
     seen_targets = set()
     reported = set()
@@ -449,12 +466,12 @@ def check(case):
             if not gold["ok"] and X.msg_class(gold) != X.msg_class(res):
                 out.labels.append("reject_message_depends_on_history")
         else:
-            after, confirmed = _cause(case, sources, k, v, results, out)
-            sig = {"effect": v[0], "class": v[1], "after": after}
+            after, with_, confirmed = _cause(case, sources, k, v, results, out)
+            sig = {"effect": v[0], "class": v[1], "after": after, "with": with_}
             out.labels.append(f"finding:{v[0]}")
             if canon(sig) not in reported:
                 reported.add(canon(sig))
-                det = _detail(case, k, gold, res, v, after, confirmed)
+                det = _detail(case, k, gold, res, v, after + (' with ' + with_ if with_ else ''), confirmed)
                 det += f"\nmonitored state not clean before this op: {results[k - 1].get('dirty', []) if k else []}"
                 out.add(sig, det)
         if not res["ok"]:
@@ -501,7 +518,7 @@ def _check_hashseed(case, sources, out):
         if not r["ok"]:
             all_ok = False
         if v is not None:
-            out.add({"effect": v[0], "class": v[1], "after": "hashseed"},
+            out.add({"effect": v[0], "class": v[1], "after": "hashseed", "with": ""},
                     f"{case['designs'][0]} top {top}: PYTHONHASHSEED={s} vs {seeds[0]}: {v}\n"
                     + (_first_diff(base["vhdl"], r["vhdl"]) if r["ok"] else f"{r.get('exc')}: {r.get('msg', '')[:300]}"))
     out.nontrivial = all_ok and len(seeds) >= 2
